@@ -129,6 +129,9 @@ ScnH == [Scn("H", <<"v0", "p1", "p2", "s0">>,
             "r0" :> "v0" @@ "r1" :> "v0", {"p1", "p2"})
          EXCEPT !.rereq["v0"] = TRUE]
 
+\* scenario S with out-of-band queues of ONE message: every way a register / unregister message can be refused
+ScnT == [qcap |-> 1] @@ [ScnS EXCEPT !.id = "T"]
+
 ScnInThread == {ScnA, ScnB, ScnC, ScnD, ScnE, ScnF, ScnH}
 ScnBin == {ScnG}
 ScnQueue == {ScnQ, ScnR, ScnS}
@@ -138,6 +141,7 @@ ScnQuick == {ScnA, ScnB, ScnR, ScnH}
 ScnQuickQ == {ScnR}
 ScnThorIn == ScnInThread
 ScnThorQ == {ScnQ, ScnR, ScnS}
+ScnFull == {ScnT}
 ScnOnlyA == {ScnA}
 ScnOnlyD == {ScnD}
 ScnOnlyH == {ScnH}
